@@ -286,3 +286,14 @@ Proof.
   exists [[NRoot (NSize (SRoot (ERange (BInt 1) (BInt 10))))]; [NRoot (NSize (SRoot (ERange (BInt 2) (BInt 3))))]].
   split; [vm_compute; reflexivity | eexists; vm_compute; reflexivity].
 Qed.
+
+(* op_ok is satisfiable: the two SIZE operands of the reported shape, under the
+   minmax the SIZE request starts with (0..MAX) *)
+Definition size0 : range := mkRange (EV 0) EMax [] false false false false false.
+Example op_ok_size_witness :
+  (exists t, op_ok ReqSize VisNone (Some size0) (parse_ness (NSize (SExt (ERange (BInt 1) (BInt 5))))) t /\ r_ext t = true) /\
+  (exists t, op_ok ReqSize VisNone (Some size0) (parse_ness (NSize (SRoot (ERange (BInt 7) (BInt 9))))) t /\ r_ext t = false).
+Proof.
+  split; eexists; (split; [split; [intros ex; cbn [parse_ness]; rewrite compute_size_exmet; eexists; vm_compute; reflexivity
+                                  | split; reflexivity] | reflexivity]).
+Qed.
